@@ -525,6 +525,75 @@ def run(ctx):
     ctx.inst("R02.4", "partial-ratio-validated", bool(hit) and all(i.ok for i in hit), "",
              "; ".join("%s: %s" % (i.key, i.status) for i in hit) or "the C20 instance for partial_liquidation_ratio was not enumerated")
 
+    # ---- R02.6: the position getter the replies use.  The sign tables above read `position.direction` / `position.size` of
+    # what it returns as the STORED record's; that holds only if the getter hands the stored record back unchanged when there
+    # is one, and otherwise a fresh record that differs from the default only in its identity, the direction of the acting
+    # side and the block stamp (size, margin, notional and checkpoint stay zero)
+    ctx.rule("R02.6", "the position getter returns the stored record unchanged when it exists; otherwise the default record with vamm / trader / direction (from the acting side) / block stamp set and nothing else", 1)
+    getters = []
+    for f in sorted(w.crate_fns(ENG), key=lambda f: f.pretty):
+        if f.derived or "::_::" in f.pretty or f.kind == "Closure" or not f.locals[0]["ty"].endswith("margined_engine::Position"):
+            continue
+        if not any("Side" in f.locals[i + 1]["ty"] for i in range(f.arg_count)):
+            continue
+        try:
+            oks = ix.ok_paths(f)
+        except Exception:
+            continue
+        if any(load_key(ix, x) is not None for p in oks for x in sym.walk(ix.inline(p.ret))):
+            getters.append(f)
+    if not getters:
+        ctx.lost("R02.6", "the position getter (returns a Position, takes the acting Side, loads the position item)")
+    for f in getters:
+        ctx.analysed["functions"].add(f.pretty)
+        badg = None
+        kinds = set()
+        params = [sym.param(f.key, i, f.param_name(i)) for i in range(f.arg_count)]
+        sidep = [sym.param(f.key, i, f.param_name(i)) for i in range(f.arg_count) if "Side" in f.locals[i + 1]["ty"]]
+        for p in ix.ok_paths(f):
+            r = ix.inline(p.ret)
+            exists = None
+            for (at, o, _b, _l) in p.conds:
+                ai = ix.inline(at)
+                if tag(ai) == "op" and payload(ai)[0] == "eq" and o in (True, False) and len(kids(ai)) == 2:
+                    for x, y in (kids(ai), kids(ai)[::-1]):
+                        xi = ix.inline(x)
+                        if tag(xi) == "field" and payload(xi)[0] in ("vamm", "trader") and load_key(ix, kids(xi)[0]) is not None and \
+                           ((tag(y) == "const" and payload(y)[1] in ('""', "")) or 'unchecked("")' in sym.show(y, 3) or sym.show(y, 2) in ('""', "")):
+                            exists = not o
+            if exists is None:
+                badg = badg or "a path does not decide whether a stored record exists (empty identity of the loaded value)"
+                continue
+            # field-wise comparison with the loaded record (works for in-place updates, struct-update and full literals)
+            L = next((x for x in sym.walk(r) if load_key(ix, x) is not None and tag(x) != "field"), None)
+            adt = w.adts.get("margined_perp::margined_engine::Position")
+            names = [fl["name"] for fl in adt["variants"][0]["fields"]] if adt and adt.get("variants") else \
+                ["vamm", "trader", "direction", "size", "margin", "notional", "last_updated_premium_fraction", "block_number"]
+            if L is None:
+                badg = badg or "the returned record is not built from the loaded one: %s" % sym.show(r, 4)[:160]
+                continue
+            over = {nm_: ix.inline(sym.field(r, nm_)) for nm_ in names if ix.inline(sym.field(r, nm_)) != ix.inline(sym.field(L, nm_))}
+            if exists:
+                kinds.add("stored")
+                if over:
+                    badg = badg or "an existing record is returned with %s changed" % sorted(over)
+            else:
+                kinds.add("fresh")
+                extra = set(over) - {"vamm", "trader", "direction", "block_number"}
+                if extra:
+                    badg = badg or "the fresh record also sets %s" % sorted(extra)
+                for nm_ in ("vamm", "trader"):
+                    if nm_ in over and over[nm_] not in params:
+                        badg = badg or "fresh record: %s = %s is not the requested key" % (nm_, sym.show(over[nm_], 4))
+                if "direction" in over:
+                    d_ = over["direction"]
+                    if not (sidep and sidep[0] in set(sym.walk(d_)) and tag(d_) == "call"):
+                        badg = badg or "fresh record: direction = %s is not derived from the acting side" % sym.show(d_, 4)
+                else:
+                    badg = badg or "fresh record: direction is not set from the acting side"
+        ctx.inst("R02.6", "getter:%s" % short_fn(f), badg is None and kinds == {"stored", "fresh"}, f.where(),
+                 badg or "stored record returned unchanged; fresh record = default + (vamm, trader, direction(side), block stamp)")
+
     # every success path of a swap reply stores or removes the position
     for ckey, sts in sorted(em.chains.items()):
         if len(sts) < 2 or sts[-1].ident == 8:
